@@ -112,7 +112,7 @@ def shape(n):
 # segment and every loop body is a regenerated Lean definition with its own theorems): only what the pieces
 # do not contain is tied by hash - the signature, the loop headers (init / condition / step) and the order of
 # segments and loops.  A rewrite inside a piece re-proves or fails its lemma; a changed loop bound changes the hash.
-SKELETON = re.compile(r"^(_skinny(128|64)_parallel_(en|de)crypt_vec(128|256)|_mantis_parallel_crypt_vec128|skinny128_ecb_encrypt_(four|eight)|skinny64_ecb_encrypt_eight)$")
+SKELETON = re.compile(r"^(_skinny(128|64)_parallel_(en|de)crypt_vec(128|256)|_mantis_parallel_crypt_vec128|skinny128_ecb_encrypt_(four|eight)|skinny64_ecb_encrypt_eight|mantis_ecb_encrypt_eight)$")
 def skeleton(f):
     sig = [shape(c) for c in f.get("inner", []) if c.get("kind") == "ParmVarDecl"]
     body = body_of(f)
